@@ -305,6 +305,41 @@ def correspond(env, name, cases):
                      [show_out(o) for o in outs])
 
 
+GROUP_CHECKER = ("fun c => match c with (src, pre, preouts, lasts) => let (outs, h) := run (init src) pre in "
+                 "outs_eqb outs preouts && forallb (fun p => out_eqb (fst (step h (fst p))) (snd p)) lasts end")
+
+
+def op_coq(t, op):
+    return f"Build_op {t}%nat ({kind_coq(op)})"
+
+
+def group_coq(g):
+    src, pre, preouts, lasts = g
+    return (f"({czl(src)}, [{'; '.join(op_coq(t, op) for t, op in pre)}], [{'; '.join(out_coq(o) for o in preouts)}],\n  ["
+            + "; ".join(f"({op_coq(t, op)}, {out_coq(o)})" for (t, op), o in lasts) + "])")
+
+
+def correspond_grouped(env, name, cases):
+    """Same comparison, histories that share all but the last operation written as one Coq
+    case (the literal is three times smaller: parsing dominates the evaluation)."""
+    groups = {}
+    for i, (src, hist, outs) in enumerate(cases):
+        groups.setdefault((src, hist[:-1]), []).append(i)
+    keys = list(groups)
+    glist = [(k[0], k[1], cases[groups[k][0]][2][:-1], [(cases[i][1][-1], cases[i][2][-1]) for i in groups[k]]) for k in keys]
+    ok, bad, logs = env.coq_mismatches(
+        name, PREAMBLE, lambda lo, hi: "[" + ";\n ".join(group_coq(g) for g in glist[lo:hi]) + "]",
+        GROUP_CHECKER, len(glist), shard=40)
+    if not ok:
+        env.proof_broken(f"lazy-list correspondence cases ({name}) failed to evaluate", logs)
+    detail = [cases[i] for gi in bad[:20] for i in groups[keys[gi]]]
+    if detail:
+        before = len(env.disagreements)
+        correspond(env, name + "_detail", detail)
+        if len(env.disagreements) == before:
+            env.disagree("LazyList", hist_json(detail[0][0], detail[0][1][:-1]), "(a group of histories with this prefix differs)", "")
+
+
 def report_fail(env, src, hist, what):
     t, op = hist[-1]
     env.fail(hist_json(src, hist), what, cls=f"{kind_of(op)}:{'copy' if t else 'root'}")
@@ -413,8 +448,7 @@ def run(env):
     t0 = time.time()
     env.count(sum(len(c[1]) for c in cases),
               (hash((c[0], c[1])) for c in cases if c[0] and len(c[1]) >= 2))
-    for i in range(0, len(cases), 240000):
-        correspond(env, f"ex{i // 240000}", cases[i:i + 240000])
+    correspond_grouped(env, "ex", cases)
     env.note("exhaustive_histories_vs_model", len(cases))
     if cases:
         mid = cases[len(cases) // 2]
